@@ -60,6 +60,18 @@ def check(gen_dir, out_dir, only=None):
                     if fld:
                         viol('%s/%s/iter' % (pclass, fclass), name, dict(ctx, item=i, field=fld, decoded=g, expected=w))
                         break
+            # interleavings on one reader, and the path-based constructor: same expectation
+            for route in ('iter_after_nth_last', 'iter_after_partial_iter_and_nth0', 'path_iter_idx'):
+                if route not in d:
+                    continue
+                counters['interleaved_or_path_iterations'] = counters.get('interleaved_or_path_iterations', 0) + 1
+                it2 = d[route]
+                bad = len(it2) != n or any('err' in x or 'overrun' in x for x in it2)
+                if not bad:
+                    bad = any(diff(g, w) for g, w in zip(it2, want))
+                if bad:
+                    viol('%s/%s/%s' % (pclass, fclass, route), name,
+                         dict(ctx, items=['err' if 'err' in x else ('overrun' if 'overrun' in x else 'ok') for x in it2], index_entries=n))
             # random access: every i < n, None at n and n+1
             nth = d.get('nth', [])
             ok = len(nth) == n + 2 and nth[n] is None and nth[n + 1] is None
